@@ -15,6 +15,8 @@ stdout: one JSON object per line
 
 The output buffer is `guard` bytes of 0xA5, then dklen bytes pre-filled with 0x5A, then
 `guard` bytes of 0xA5; guard_ok says that both guard zones are intact after the call.
+Optional "alias": "salt" | "pw" and "alias_off": k place the OUTPUT region inside the salt / password buffer (k bytes
+into it): in-place use; the reply then also has "rest_ok" (bytes of that buffer outside the output range unchanged).
 Each case runs in a forked child so that an abort does not end the run (--nofork disables
 that).  Hex strings may be "" or "-" for empty.
 """
@@ -45,7 +47,40 @@ def load(path):
     return f
 
 
+def run_alias(f, req):
+    """in-place use: the output region lies INSIDE the salt ("alias": "salt") or password ("alias": "pw") buffer,
+    starting `alias_off` bytes into it.  One arena: guard | region | guard, region = max(len(src), off + dklen) bytes
+    holding src followed by 0x5A filler.  Reply adds "rest_ok": the region's bytes outside the output range are unchanged."""
+    pw = unhex(req["pw"])
+    salt = unhex(req["salt"])
+    dklen = int(req["dklen"])
+    guard = int(req.get("guard", 16))
+    which = req["alias"]
+    off = int(req.get("alias_off", 0))
+    src = salt if which == "salt" else pw
+    rlen = max(len(src), off + dklen)
+    region = src + bytes([FILL]) * (rlen - len(src))
+    total = guard + rlen + guard
+    arena = (ctypes.c_ubyte * (total + 1))()
+    init = bytes([GUARD]) * guard + region + bytes([GUARD]) * guard + b"\0"
+    ctypes.memmove(arena, init, total + 1)
+    base = ctypes.addressof(arena)
+    other = ctypes.create_string_buffer(pw if which == "salt" else salt, len(pw if which == "salt" else salt) + 1)
+    if which == "salt":
+        f(ctypes.addressof(other), len(pw), base + guard, len(salt), int(req["n"]), int(req["r"]), int(req["p"]), base + guard + off, dklen)
+    else:
+        f(base + guard, len(pw), ctypes.addressof(other), len(salt), int(req["n"]), int(req["r"]), int(req["p"]), base + guard + off, dklen)
+    after = bytes(arena)[:total]
+    out = after[guard + off:guard + off + dklen]
+    ok = after[:guard] == bytes([GUARD]) * guard and after[guard + rlen:] == bytes([GUARD]) * guard
+    reg = after[guard:guard + rlen]
+    rest_ok = reg[:off] == region[:off] and reg[off + dklen:] == region[off + dklen:]
+    return {"id": req.get("id"), "out": out.hex(), "guard_ok": ok, "rest_ok": rest_ok}
+
+
 def run_case(f, req):
+    if req.get("alias") in ("salt", "pw"):
+        return run_alias(f, req)
     pw = unhex(req["pw"])
     salt = unhex(req["salt"])
     dklen = int(req["dklen"])
